@@ -44,6 +44,7 @@ FIXTURE_SEED = {
     'COLOR': 'K2-key-insert-new-black',
     'CLIMB': 'CL1-set-after-climb-node-is-new-parent',
     'PROGRESS': 'PG1-key-expire-root-no-removal',
+    'SIZING': 'SZ3-seg-ctor-one-list-short',
 }
 # second fixture for LIVE on the seg family
 EXTRA_FIXTURES = {'C03': ['L4-seg-expiry-le'], 'C16': ['L4-seg-expiry-le']}
